@@ -1300,7 +1300,7 @@ func (e *c20Env) checkKilledPair(sc *c20Scenario, marksA, marksB *c20Marks) {
 		return
 	}
 	var cands []*pb.ClientConf
-	absentOK := sc.Init < 0 && (!a.present || !b.present)
+	absentOK := sc.Init < 0 && !a.present && !b.present // neither has completed a store yet
 	for _, lp := range []c20Loop{a, b} {
 		if lp.present {
 			cands = append(cands, lp.disk.materialise())
